@@ -63,7 +63,7 @@ static void fs_dstack(size_t wi, const std::string &proto, const std::string &ki
 		std::vector<size_t> ns = quick ? std::vector<size_t>{3, 4} : std::vector<size_t>{3, 4, 5, 6};
 		for (size_t n : ns) {
 			std::vector<std::vector<size_t>> perms; all_noncyclic_or_sample(n, rg, quick ? (cc ? 5 : (direct_vrhe ? 4 : 6)) : (cc ? 12 : 24), &perms);
-			if (n == ns.back()) { size_t m = quick ? 6 : 8; for (size_t t = 0; t < (cc ? 5u : (direct_vrhe ? 1u : 2u)); t++) perms.push_back(near_rotation(m, rg)); }   // near-rotations of a larger stack
+			if (n == ns.back()) { size_t m = quick ? 6 : 8; for (size_t t = 0; t < (cc ? 7u : (direct_vrhe ? 1u : 2u)); t++) perms.push_back(near_rotation(m, rg)); }   // near-rotations of a larger stack
 			for (auto &pi_ : perms) { const std::vector<size_t> &pi = pi_; size_t n = pi.size();
 				auto st = make_dstmt(W, tm, rg, n, pi, false);
 				if (truth(*st)) { count("skipped_true/noncyclic"); continue; }
@@ -133,7 +133,7 @@ static void fs_qstack(bool cyclic, const std::string &kind) {
 	if (kind == "noncyclic") {
 		for (size_t n : (quick ? std::vector<size_t>{3, 4} : std::vector<size_t>{3, 4, 5})) {
 			std::vector<std::vector<size_t>> perms; all_noncyclic_or_sample(n, rg, quick ? 4 : 12, &perms);
-			if (n == 4) for (size_t t = 0; t < 5; t++) perms.push_back(near_rotation(quick ? 6 : 8, rg));   // near-rotations of a larger stack
+			if (n == 4) for (size_t t = 0; t < 8; t++) perms.push_back(near_rotation(quick ? 6 : 8, rg));   // near-rotations of a larger stack
 			for (auto &pi_ : perms) { const std::vector<size_t> &pi = pi_; size_t n = pi.size();
 				auto st = make_qstmt(W, tm, rg, n, pi, false);
 				if (truth(*st)) { count("skipped_true/noncyclic"); continue; }
